@@ -645,14 +645,14 @@ pub fn check_recovered(
     Ok(())
 }
 
-struct Recovered {
-    contents: Contents,
-    live_extents: Vec<(u64, u64)>,
-    device_calls: u64,
+pub(crate) struct Recovered {
+    pub contents: Contents,
+    pub live_extents: Vec<(u64, u64)>,
+    pub device_calls: u64,
 }
 
 /// Open `image` in a fresh handle (a simulated process restart) and read everything back.
-fn recover(
+pub(crate) fn recover(
     sim: &Arc<Sim>,
     sc: &Scenario,
     env: &mut Env,
@@ -950,7 +950,7 @@ pub fn contents_diff(a: &Contents, b: &Contents, ttl: bool, now: u64) -> Option<
 }
 
 #[allow(clippy::too_many_arguments)]
-fn nested_crash(
+pub(crate) fn nested_crash(
     sim: &Arc<Sim>,
     sc: &Scenario,
     env: &mut Env,
